@@ -52,6 +52,19 @@ structure Req where
   resp : Resp := ⟨200, "", []⟩   -- what the downstream handler answers for this request when it succeeds
   deriving Repr
 
+/-- idempotency.go New, head of the returned handler: how `Config.Next`, `Config.KeyHeader` and
+`Config.KeyHeaderValidate` (defaults or custom ones) turn an HTTP request into what the model looks at.
+`next` = the result of `cfg.Next(c)`, `key` = the value of the header named `cfg.KeyHeader` (`none` when it
+is empty / absent), `valid` = `cfg.KeyHeaderValidate(key) == nil`. The order is the code's: Next first
+(the key is not even read), then the empty key, then the validator. -/
+def Req.ofHttp (next : Bool) (key : Option Key) (valid : Bool) (fails : Bool) (resp : Resp) : Req :=
+  if next then { key := none, invalid := false, fails := fails, resp := resp }
+  else match key with
+    | none => { key := none, invalid := false, fails := fails, resp := resp }
+    | some k =>
+      if valid then { key := some k, invalid := false, fails := fails, resp := resp }
+      else { key := none, invalid := true, fails := fails, resp := resp }
+
 inductive Pc
   | idle
   | atGet1         -- about to call Storage.Get (fast path)
